@@ -30,7 +30,7 @@ T = {
          "C08 (hmac suite: gethmac/cmphmac with the stream at positions 1..8 vs Spec.HMAC)"),
  "C09": ("column-mix product tables filled on first use behind `static bool done; if (done) return; done = true; <fill>` (flag set before the fill)",
          "a fresh process whose first AES calls are made by several threads at the same time",
-         "C09 (new `firstuse` suite: the harness binary re-executed 40 times; eight threads make their first AES / mode / hash / base64 calls behind a spin barrier)"),
+         "C09 (new `firstuse` suite: the harness binary re-executed 80 times (400 in the thorough tier), built with -O2 and without sanitizers; twelve threads make their first AES / mode / hash / base64 calls behind a spin barrier)"),
  "C10": ("Aesmode::getXor gets a memcpy fallback for unaligned pointers with stride 1 instead of 4",
          "a block at an address that is not a multiple of 4 in CBC/CTR/CFB/OFB",
          "C10 (mode suite: blocks at odd addresses, added after round 4)"),
